@@ -6,7 +6,7 @@
 From Coq Require Import String.
 From Coq Require Import List Ascii ZArith Bool Lia Permutation FinFun.
 From CGV Require Import Base.PyBase Base.PyVal Gen.SmilesGen Frag.NDict Frag.FragText Frag.SmilesParse Frag.SmilesSpec
-     Frag.SmilesProofs Frag.SmilesPerm Frag.SmilesReverse Frag.SmilesPermR Frag.SmilesReroot.
+     Frag.SmilesProofs Frag.SmilesPerm Frag.SmilesReverse Frag.SmilesPermR Frag.SmilesPermX Frag.SmilesReroot.
 Import ListNotations.
 
 (** * a permutation below n has an inverse *)
@@ -45,6 +45,57 @@ Proof.
   unfold base_rel, graphs_rel. destruct r1 as [b1|e1], r2 as [b2|e2]; cbn [bind]; try contradiction; [|auto].
   intros [n [BP SO]]. pose proof (interpret_uperm s _ n b1 b2 BP SO (sigma_ok_inv s n SO)) as IP.
   destruct (interpret b1), (interpret b2); try contradiction; [exists n; split; assumption|exact IP].
+Qed.
+
+(** * a ring bond crossing an exchanged branch: graph level *)
+Theorem xswap_branches x pa pb y g c :
+  grun false ginit x = Ok g -> q_cur g = Some c -> q_pend g = None ->
+  is_rblock pa = true -> is_rblock pb = true -> rings_local pb = true -> fresh g pa -> fresh g pb -> avoids pa pb ->
+  let s := swap_sigma (q_n g) (count_atoms pa) (count_atoms pb) in
+  match graph_of false (x ++ pa ++ pb ++ y), graph_of false (x ++ pb ++ pa ++ y) with
+  | Ok G, Ok H => exists n, graph_perm s n G H /\ sigma_ok s n
+  | Err e, Err e' => e = e'
+  | _, _ => False
+  end.
+Proof.
+  intros RX C P BA BB RB FA FB AV s.
+  pose proof (xswap_branches_base x pa pb y g c RX C P BA BB RB FA FB AV) as H. fold s in H. unfold graph_of.
+  destruct (graph_base false (x ++ pa ++ pb ++ y)) as [b1|e1], (graph_base false (x ++ pb ++ pa ++ y)) as [b2|e2];
+    cbn [bind]; try contradiction; [|exact H].
+  destruct H as [n [BP SO]]. pose proof (interpret_perm s _ n b1 b2 BP SO (sigma_ok_inv s n SO)) as IP.
+  destruct (interpret b1), (interpret b2); try contradiction; [exists n; split; assumption|exact IP].
+Qed.
+Theorem xswap_branches_text x pa pb y g c :
+  wf_smiles (x ++ pa ++ pb ++ y) = true -> wf_smiles (x ++ pb ++ pa ++ y) = true ->
+  grun false ginit x = Ok g -> q_cur g = Some c -> q_pend g = None ->
+  is_rblock pa = true -> is_rblock pb = true -> rings_local pb = true -> fresh g pa -> fresh g pb -> avoids pa pb ->
+  let s := swap_sigma (q_n g) (count_atoms pa) (count_atoms pb) in
+  match smiles_parse (render_smiles false (x ++ pa ++ pb ++ y)), smiles_parse (render_smiles false (x ++ pb ++ pa ++ y)) with
+  | Ok G, Ok H => exists n, graph_perm s n G H /\ sigma_ok s n
+  | Err e, Err e' => e = e'
+  | _, _ => False
+  end.
+Proof. intros W1 W2. rewrite (render_parse false _ W1), (render_parse false _ W2). apply xswap_branches. Qed.
+
+(** non-vacuity: CC(C1CC)(C2CC2)N1 and CC(C2CC2)(C1CC)N1 — ring bond 1 from the first branch to the N after both *)
+Definition xs_x := [TAtom (S "C"); TAtom (S "C")].
+Definition xs_pa := [TOpen; TAtom (S "C"); TRing None (S "1"); TAtom (S "C"); TAtom (S "C"); TClose].
+Definition xs_pb := [TOpen; TAtom (S "C"); TRing None (S "2"); TAtom (S "C"); TAtom (S "C"); TRing None (S "2"); TClose].
+Definition xs_y := [TAtom (S "N"); TRing None (S "1")].
+Lemma xswap_example :
+  to_string (render_smiles false (xs_x ++ xs_pa ++ xs_pb ++ xs_y)) = "CC(C1CC)(C2CC2)N1"%string /\
+  to_string (render_smiles false (xs_x ++ xs_pb ++ xs_pa ++ xs_y)) = "CC(C2CC2)(C1CC)N1"%string /\
+  wf_smiles (xs_x ++ xs_pa ++ xs_pb ++ xs_y) = true /\ wf_smiles (xs_x ++ xs_pb ++ xs_pa ++ xs_y) = true /\
+  is_rblock xs_pa = true /\ is_rblock xs_pb = true /\ rings_local xs_pa = false /\ rings_local xs_pb = true /\ avoids xs_pa xs_pb /\
+  (exists g, grun false ginit xs_x = Ok g /\ q_cur g = Some 1 /\ q_pend g = None /\ q_open g = []) /\
+  (exists G H, graph_of false (xs_x ++ xs_pa ++ xs_pb ++ xs_y) = Ok G /\ graph_of false (xs_x ++ xs_pb ++ xs_pa ++ xs_y) = Ok H /\
+     length (g_nodes G) = 9 /\ length (g_edges G) = 10 /\ In (8, 2, VInt 1) (g_edges G) /\ In (8, 5, VInt 1) (g_edges H) /\ G <> H).
+Proof.
+  repeat (split; [vm_compute; reflexivity|]). split; [|split].
+  - intros b m IN. cbn in IN. repeat (destruct IN as [IN|IN]; [inversion IN; subst; vm_compute; reflexivity|]). contradiction.
+  - eexists. split; [vm_compute; reflexivity|]. repeat split; reflexivity.
+  - eexists. eexists. split; [vm_compute; reflexivity|]. split; [vm_compute; reflexivity|].
+    split; [reflexivity|]. split; [reflexivity|]. split; [cbn; tauto|]. split; [cbn; tauto|discriminate].
 Qed.
 
 (** * the tail of the text written as a last branch *)
@@ -151,6 +202,10 @@ Inductive rw1 : list tok -> list tok -> (nat -> nat) -> Prop :=
     grun false ginit x = Ok g -> q_cur g = Some c -> q_pend g = None ->
     is_rblock pa = true -> is_rblock pb = true -> rings_local pa = true -> rings_local pb = true -> fresh g pa -> fresh g pb ->
     rw1 (x ++ pa ++ pb ++ y) (x ++ pb ++ pa ++ y) (swap_sigma (q_n g) (count_atoms pa) (count_atoms pb))
+| rw_xswap x pa pb y g c :
+    grun false ginit x = Ok g -> q_cur g = Some c -> q_pend g = None ->
+    is_rblock pa = true -> is_rblock pb = true -> rings_local pb = true -> fresh g pa -> fresh g pb -> avoids pa pb ->
+    rw1 (x ++ pa ++ pb ++ y) (x ++ pb ++ pa ++ y) (swap_sigma (q_n g) (count_atoms pa) (count_atoms pb))
 | rw_paren x0 T g c :
     grun false ginit x0 = Ok g -> q_cur g = Some c -> nonnegb 0 T = true ->
     rw1 (x0 ++ T) (x0 ++ TOpen :: T ++ [TClose]) sid
@@ -178,6 +233,8 @@ Proof.
     apply (swap_branches_base x pa pb y g c); assumption.
   - apply (base_rel_graphs _ (graph_base false _) (graph_base false _)). apply base_perm_rel.
     apply (swap_rbranches_base x pa pb y g c); assumption.
+  - apply (base_rel_graphs _ (graph_base false _) (graph_base false _)). apply base_perm_rel.
+    apply (xswap_branches_base x pa pb y g c); assumption.
   - rewrite (tail_paren x0 T g c) by assumption. apply graphs_rel_refl.
   - rewrite (tail_paren x0 T g c) by assumption. apply graphs_rel_refl.
 Qed.
